@@ -1,5 +1,6 @@
 import NunVerif.Props.C17
 import NunVerif.Props.C20
+import NunVerif.Props.C20Transport
 import NunVerif.Gen.Close
 /-
   C17 / C20 — the disconnect glue of the transports is what the model's close sequences assume.
